@@ -2630,4 +2630,78 @@ theorem instantiateNode_real (n function st : Nat) (ps vs : List String) (ds : F
       · have hnm : "arguments" ∉ ps := by simpa using hc
         simpa [Call.modelInst, Call.modelArgs, hc, I, hF, hnm] using hrel8
 
+/-! ## `this` of a call, [[HasInstance]] -/
+
+/-- cmpl_evaluate_expression.go: `this = objectValue(rf.base)` for a property reference, undefined otherwise -/
+def modelThis (r : FnM.Ref) : Fn.V :=
+  match r with
+  | .prop (some b) _ => .ref b
+  | _ => .undef
+
+/-- §10.4.3 step 2 / runtime.go enterFunctionScope: undefined or null become the global object -/
+def effThis (v : Fn.V) : Fn.V :=
+  match v with
+  | .undef => .ref Fn.gObj
+  | .null => .ref Fn.gObj
+  | t => t
+
+/-- **`this` of a call `x(…)`** (§11.2.3 step 6.b with §10.2.1.1.6 / §10.2.1.2.6 ImplicitThisValue): the binding object for a
+    callee found in a `with` environment; the global object otherwise (otto hands the global object over for a
+    callee found in the global stash, ES5 undefined, which entering the function turns into the global object) -/
+theorem this_spec (σ : FnM.St) (x : String) (h0 : WF0 σ) (res : Option Nat) :
+    effThis (modelThis (refOf σ x res)) =
+      effThis (match res with | some j => Fn.implicitThis (absSt σ) j | none => .undef) := by
+  cases res with
+  | none => rfl
+  | some j =>
+    simp only [refOf, Fn.implicitThis]
+    by_cases hj : j = 0
+    · subst hj
+      have h0' : σ.stash? 0 = some (.obj none FnM.gObj) := h0
+      simp [FnM.newReference, h0', modelThis, effThis, FnM.gObj, Fn.gObj]
+    · simp only [hj, if_false, absSt_env]
+      cases hs : σ.stash? j with
+      | none => simp [FnM.newReference, hs, modelThis]
+      | some st =>
+        cases st with
+        | obj outer o => simp [FnM.newReference, hs, modelThis, absStash]
+        | dcl outer ps => simp [FnM.newReference, hs, modelThis, absStash, absDcl]
+        | fn outer ps ar => simp [FnM.newReference, hs, modelThis, absStash, absDcl]
+
+/-- type_function.go hasInstance: `value := of.prototype; for value != nil { if value == prototypeObject … }` is
+    FnSpec's walk (§15.3.5.3 step 4) on the abstraction -/
+theorem protoWalk_spec (σ : FnM.St) (p : Nat) : ∀ (n x : Nat),
+    FnM.protoWalk σ n ((σ.obj? x).bind (·.proto)) p = Fn.hasInstance.walk p (absSt σ) n x := by
+  intro n
+  induction n with
+  | zero => intro x; cases (σ.obj? x).bind (·.proto) <;> rfl
+  | succ n ih =>
+    intro x
+    rw [Fn.hasInstance.walk]
+    simp only [absSt_obj]
+    cases hx : σ.obj? x with
+    | none => rfl
+    | some ox =>
+      simp only [Option.bind_some, Option.map_some]
+      have hp : (absObj ox).proto = ox.proto := rfl
+      rw [hp]
+      cases hq : ox.proto with
+      | none => rfl
+      | some q =>
+        simp only [FnM.protoWalk]
+        by_cases hqp : q = p
+        · simp [hqp]
+        · simp only [hqp, if_false]
+          have := ih q
+          cases hoq : σ.obj? q with
+          | none =>
+            rw [hoq] at this
+            simp only [Option.bind_none] at this
+            rw [← this]
+            cases n <;> rfl
+          | some oq =>
+            rw [hoq] at this
+            simp only [Option.bind_some] at this
+            exact this
+
 end OttoVerif.C01.FnRefine
